@@ -68,6 +68,21 @@ def is_number(t, allow_bool):
     return z3.Or(num, special)
 
 
+def typed_elements_exact(st, v, is_map, keys=("type", "data")):
+    """every {"type", "data"} element of a typed list / map has no other key (an extra key is content that the reload
+    would drop silently).  Only ever used as a goal: the two universals (element, key) are Skolemised."""
+    if is_map:
+        w = st.fresh("sk.element-key", core.StrS)
+        e, dom = JM.jget(v, w), JM.jhas(v, w)
+    else:
+        w = st.fresh("sk.element", z3.IntSort())
+        e, dom = JM.jelem(v, w), z3.And(w >= 0, w < JM.jlen(v))
+    k2 = st.fresh("sk.extra-key", core.StrS)
+    st.add_index(w)
+    st.add_index(k2)
+    return z3.Implies(z3.And(dom, JM.jtag(e) == JM.OBJ, JM.jhas(e, k2)), z3.Or([k2 == T(x) for x in keys]))
+
+
 def registered(s):
     return z3.Or([s == T(c) for c in PRIMITIVES])
 
@@ -142,6 +157,7 @@ def valid_clauses(K, j):
                 return z3.And(JM.jtag(v) == JM.ARR, ok)
 
             out.append((f"elements:{f}", g))
+            out.append((f"elements-no-extra-keys:{f}", lambda st, v=v, key=key: typed_elements_exact(st, v, False, (key, "data"))))
         elif kind == "typedlist":
 
             def g(st, v=v):
@@ -158,6 +174,7 @@ def valid_clauses(K, j):
                 return z3.And(JM.jtag(v) == JM.ARR, ok)
 
             out.append((f"elements:{f}", g))
+            out.append((f"elements-no-extra-keys:{f}", lambda st, v=v: typed_elements_exact(st, v, False)))
         elif kind == "typedmap":
 
             def g(st, v=v):
@@ -173,6 +190,7 @@ def valid_clauses(K, j):
                 return z3.And(JM.jtag(v) == JM.OBJ, ok)
 
             out.append((f"elements:{f}", g))
+            out.append((f"elements-no-extra-keys:{f}", lambda st, v=v: typed_elements_exact(st, v, True)))
         elif kind == "bagvalues":
             out.append((f"list:{f}", lambda st, v=v: z3.Or(JM.jtag(v) == JM.ARR, JM.jtag(v) == JM.NULL)))
     return out
